@@ -56,7 +56,9 @@ def ACOTH(number):
     number = utils.parse_number(number)
     if isinstance(number, error.XLError):
         return number
-    return 0.5 * math.log((number + 1) / (number - 1))
+    # atanh(1/x): 0.5*log((x+1)/(x-1)) loses its digits as the quotient approaches 1
+    # (ACOTH(1e10) was 8e-8 off, and 0 from 1e16 on)
+    return math.atanh(1 / number)
 
 
 @dispatcher.register_for('SIN')
